@@ -66,6 +66,12 @@ def load_fonts(tier):
         _FONTS["ttx:" + name] = (data, -1)
     for pname, spec in sorted(tinyfont.pool().items()):
         _FONTS["tiny:" + pname] = (tinyfont.build_bytes(spec), -1)
+    # embedded bitmaps in every EBDT image format (the vendored corpus has none)
+    from oracles import bitmapfont
+
+    for bname, bdata in sorted(bitmapfont.family().items()):
+        if "-d1" in bname or "7x5" in bname:
+            _FONTS["tiny:" + bname] = (bdata, -1)
     # tables the library has no decoder for (odd lengths, private tags)
     from fontTools.ttLib import newTable
 
